@@ -66,7 +66,7 @@ class Query:
         self.replace = []; self.selfstub = False; self.harness = ''; self.unwindset = []
         self.flags = []; self.object_bits = None; self.timeout = None; self.expect_unreachable = False
         self.kind = 'proof'; self.unit = None; self.vars = {}; self.args = None; self.entry = None
-        self.no_enforce = False; self.note = ''; self.pre_unwind = []; self.switch_slice = []; self.no_loop_contracts = False; self.plain = False; self.also = []; self.cflags = []; self.checks = 'default'; self.slice_group = None; self.models = []; self.mem_gb = None
+        self.no_enforce = False; self.note = ''; self.pre_unwind = []; self.switch_slice = []; self.no_loop_contracts = False; self.plain = False; self.also = []; self.lambdas_of = []; self.cflags = []; self.checks = 'default'; self.slice_group = None; self.models = []; self.mem_gb = None
 
 class UnitSpec:
     def __init__(self, name):
@@ -191,6 +191,7 @@ def parse_file(path):
                 elif key == 'checks': cur.checks = rest.strip()
                 elif key == 'cflag': cur.cflags += rest.split()
                 elif key == 'also': cur.also += rest.split()
+                elif key == 'lambdas-of': cur.lambdas_of += rest.split()
                 elif key == 'note': cur.note = rest
                 else: raise SpecError('unknown query key %s' % key)
             else:
